@@ -4,6 +4,19 @@
 
 namespace ccl::tools {
 
+#ifdef CCL_VERIF
+namespace {
+std::optional<std::mt19937_64>& VerifEngine() {
+  static std::optional<std::mt19937_64> engine{};
+  return engine;
+}
+} // namespace
+
+void EntityGenerator::VerifSeed(const uint64_t seed) {
+  VerifEngine() = std::mt19937_64{ seed };
+}
+#endif
+
 void EntityGenerator::Clear() noexcept {
   entities.clear();
 }
@@ -12,6 +25,13 @@ EntityUID EntityGenerator::NewUID() {
   EntityUID result{ 0 };
   const auto oldSize = ssize(entities);
   while (ssize(entities) == oldSize) {
+#ifdef CCL_VERIF
+    if (VerifEngine().has_value()) {
+      result = static_cast<EntityUID>(distribution(VerifEngine().value()));
+      entities.emplace(result);
+      continue;
+    }
+#endif
     result = static_cast<EntityUID>(distribution(Environment::RNG()));
     entities.emplace(result);
   }
